@@ -621,9 +621,14 @@ func StringOf(v *m.Val) string {
 		}
 		return "[" + strings.Join(ss, ", ") + "]"
 	case m.TObj:
+		idx := make([]int, len(v.L))
+		for i := range idx {
+			idx[i] = i
+		}
+		sort.SliceStable(idx, func(i, j int) bool { return v.T.F[idx[i]].Name < v.T.F[idx[j]].Name })
 		xs := make([]string, len(v.L))
-		for i, x := range v.L {
-			xs[i] = v.T.F[i].Name + ": " + StringOf(x)
+		for j, i := range idx {
+			xs[j] = v.T.F[i].Name + ": " + StringOf(v.L[i])
 		}
 		return "{" + strings.Join(xs, ", ") + "}"
 	case m.TMaybe:
